@@ -12,7 +12,7 @@ VARIABLES c, a0, a, now, phase, subs, out, hist
 vars == <<c, a0, a, now, phase, subs, out, hist>>
 
 Configs == [t0 : {2}, st : {"none", "eq1", "int"}, check : BOOLEAN, ev : {"none", "plain", "v1", "err"},
-            tm : {NoneT, 3}, tmPast : {FALSE}, to : {NoneT, 0, 5}, flags : {{}}, horizon : {MaxT}]
+            tm : {NoneT, 3}, tmPast : {FALSE}, to : {NoneT, 0, 5}, S : {NoneT}, flags : {{}}, horizon : {MaxT}]
 Resources(cc) == (IF cc.st # "none" THEN {"state-sub"} ELSE {}) \cup (IF cc.ev # "none" THEN {"event-listener"} ELSE {})
                  \cup (IF cc.tm # NoneT THEN {"time-timer"} ELSE {}) \cup (IF cc.to # NoneT THEN {"timeout-timer"} ELSE {})
 
